@@ -1,2 +1,2 @@
-# KN5 (apply to <doc/>)
+# KN5 repaired by a fix: commit - regression case, must pass (apply to <doc/>)
 <xsl:stylesheet version="1.0" xmlns:xsl="http://www.w3.org/1999/XSL/Transform"><xsl:template match="/"><e><xsl:attribute name="xml:a" namespace="u4">u4</xsl:attribute></e></xsl:template></xsl:stylesheet>
